@@ -298,6 +298,37 @@ def fold(ctx, res, props, corr_name):
     for g in gf[:50]:
         ctx.violations.append({"sig": f"{g['property']} {g['kind']} {g['detail']}", "detail": f"{g['kind']}: {g['detail']}",
                                "replay": {"ops": g.get("replay", []), "go_oracle": g["kind"], "harness": hz, "kind": g["kind"]}})
+    # a disagreement with the session model on an output the property is about is a concrete failing history: the model's
+    # output is proved to satisfy the property (C10_gap: resend from the first missing number; C05_header: the identifiers
+    # of the latest accepted Logon), so an implementation that differs *there* violates it. The replay is the history.
+    if cb and ctx.prop in ("C10", "C05"):
+        ops_path = os.path.join(res["dir"], "ops.txt")
+        all_ops = open(ops_path).read().split("\n") if os.path.exists(ops_path) else []
+        def msgs(line):
+            out = []
+            for part in line.split(" | ")[0].split(" ; "):
+                f = part.split()
+                if f and f[0] == "M":
+                    out.append(dict(x.split("=", 1) for x in f[1:] if "=" in x))
+            return out
+        for prop, op, want, got in cb[:200]:
+            if prop != "SESS" or not op.startswith("sess "):
+                continue
+            impl, model = msgs(want), msgs(got)
+            sid = op.split()[2] if len(op.split()) > 2 else ""
+            hist = [o for o in all_ops[:all_ops.index(op) + 1] if o.startswith("sess ") and len(o.split()) > 2 and o.split()[2] == sid] if op in all_ops else [op]
+            if ctx.prop == "C10":
+                gi = [(m.get("7"), m.get("16")) for m in impl if m.get("35") == "32"]
+                gm = [(m.get("7"), m.get("16")) for m in model if m.get("35") == "32"]
+                if gm != gi and " in " in op:
+                    ctx.violations.append({"sig": f"C10 gap-resend-differs model={gm} impl={gi}", "detail": f"gap-resend-differs: after this history the session must ask for a resend {gm} (BeginSeqNo, EndSeqNo in hex; session model, theorem C10_gap), the implementation sent {gi}",
+                                           "replay": {"ops": hist[-60:], "expected": [want], "model": [got], "harness": res.get("harness"), "kind": "gap-resend-differs"}})
+            if ctx.prop == "C05":
+                ii = [(m.get("49"), m.get("56")) for m in impl]
+                im = [(m.get("49"), m.get("56")) for m in model]
+                if len(ii) == len(im) and ii != im:
+                    ctx.violations.append({"sig": f"C05 wrong-identifiers model={im} impl={ii}", "detail": f"wrong-identifiers: SenderCompID/TargetCompID of the messages sent here must be {im} (hex; those of the latest accepted Logon, theorem C05_header), the implementation sent {ii}",
+                                           "replay": {"ops": hist[-60:], "expected": [want], "model": [got], "harness": res.get("harness"), "kind": "wrong-identifiers"}})
     if cb:
         ctx.corr_bad = getattr(ctx, "corr_bad", []) + cb
     for p in props:
